@@ -40,6 +40,23 @@ var c04Hidden = []string{
 	`<table hidden><thead><tr><th>%w</th><th>b</th></tr></thead><tr><td>c</td><td>d</td></tr></table>`,
 	`<figure hidden><img src="h.png"><figcaption>%w</figcaption></figure>`,
 	`<section style="visibility:hidden"><p>%w</p></section>`,
+	// hidden parts inside the label of a link that is rewritten to text
+	`<a href="javascript:void(0)"><span>label <span hidden>%w</span></span></a>`,
+	`<a href="javascript:;"><b>x<script>var %w=1</script></b></a>`,
+	`<a href="javascript:void(0)">label<span style="display:none">%w</span></a>`,
+}
+
+// list 3: whole pages; the token sits in a hidden structural part (row, row
+// group, cell, caption, list item) of a structure that is otherwise retained
+var c04HiddenParts = []string{
+	`<p>alpha</p><table><thead><tr><th>h1</th><th>h2</th></tr></thead><tbody><tr hidden><td>%w</td><td>x</td></tr><tr><td>a</td><td>b</td></tr></tbody></table>`,
+	`<p>alpha</p><table><thead><tr><th>h1</th><th>h2</th></tr></thead><tbody style="display:none"><tr><td>%w</td><td>x</td></tr></tbody><tbody><tr><td>a</td><td>b</td></tr></tbody></table>`,
+	`<p>alpha</p><table><thead><tr><th>h1</th><th>h2</th></tr></thead><tbody><tr><td>a</td><td>b</td></tr></tbody><tfoot hidden><tr><td>%w</td><td>f</td></tr></tfoot></table>`,
+	`<p>alpha</p><table><caption hidden>%w</caption><thead><tr><th>h1</th><th>h2</th></tr></thead><tbody><tr><td>a</td><td>b</td></tr></tbody></table>`,
+	`<p>alpha</p><table><thead><tr><th>h1</th><th aria-hidden="true">%w</th></tr></thead><tbody><tr><td>a</td><td style="visibility:hidden">b%w</td></tr></tbody></table>`,
+	`<ul><li hidden>%w</li><li>item</li></ul>`,
+	`<ol><li>item</li><li style="display:none"><p>%w</p></li></ol>`,
+	`<table><tr><td>layout</td><td hidden>%w</td></tr><tr style="display:none"><td>%w</td></tr></table>`,
 }
 
 // list 2: not reading content (allowed inside retained data tables and figures)
@@ -88,15 +105,24 @@ func (c04Counter) Count(s string) int { return len(strings.Fields(s)) }
 // (list 1: anywhere; list 2: outside retained data tables and figures).
 func HarnessC04Leak() {
 	var el string
-	list := vx.Choose("list", 2)
-	if list == 0 {
-		el = c04Hidden[vx.Choose("el", len(c04Hidden))]
-	} else {
-		el = c04NonReading[vx.Choose("el", len(c04NonReading))]
-	}
-	pl := c04Places[vx.Choose("place", len(c04Places))]
+	list := vx.Choose("list", 3)
+	pl := c04Places[0]
 	tok := "zqtoken"
-	body := strings.Replace(pl.html, "%s", strings.Replace(el, "%w", tok, 1), 1)
+	body := ""
+	switch list {
+	case 0:
+		el = c04Hidden[vx.Choose("el", len(c04Hidden))]
+	case 1:
+		el = c04NonReading[vx.Choose("el", len(c04NonReading))]
+	case 2:
+		el = c04HiddenParts[vx.Choose("el", len(c04HiddenParts))]
+		body = strings.ReplaceAll(el, "%w", tok)
+		pl.html = "(whole page)"
+	}
+	if list < 2 {
+		pl = c04Places[vx.Choose("place", len(c04Places))]
+		body = strings.Replace(pl.html, "%s", strings.Replace(el, "%w", tok, 1), 1)
+	}
 	flags := converter.Default
 	if vx.Choose("flags", 2) == 1 {
 		flags = converter.SkipUnlikelies
@@ -111,7 +137,7 @@ func HarnessC04Leak() {
 	text := wd.GenerateOutput(true)
 	htm := wd.GenerateOutput(false)
 	leak := strings.Contains(text, tok) || strings.Contains(htm, tok)
-	if list == 0 {
+	if list == 0 || list == 2 {
 		vx.Cover("hidden")
 		vx.Assert(!leak, "non-rendered content leaks into the output: "+el+" in "+pl.html)
 	} else if !pl.inTableFig {
